@@ -88,7 +88,7 @@ def snapshot(det):
                 # an unset optional property — or one set to 0.0, which some getters report as "not specified":
                 # the stored value decides
                 v = obj.to_dict().get(name)
-            out["props"][f"{part}.{name}"] = canon(v)
+            out["props"][f"{part}.{name}"] = canon_prop(v)
     from probes import charge_frame, container, held_array
 
     c = out["containers"]
@@ -177,6 +177,38 @@ def arr_from(desc, rows, cols):
     return a.astype(desc.get("dtype", "float64"))
 
 
+def decode_value(v):
+    """legal representations of a property value that JSON cannot carry: {"np": dtype, "v": x} a numpy scalar,
+    {"tuple": [...]} a tuple; plain ints stay ints, lists stay lists"""
+    import numpy as np
+
+    if isinstance(v, dict) and "np" in v:
+        return np.dtype(v["np"]).type(v["v"])
+    if isinstance(v, dict) and "tuple" in v:
+        return tuple(decode_value(x) for x in v["tuple"])
+    if isinstance(v, list):
+        return [decode_value(x) for x in v]
+    return v
+
+
+def canon_prop(v):
+    """properties are compared by value: 600 (int), 600.0 and np.float64(600) are the same wavelength; a pair is a pair
+    whether it is a tuple or a list — but its ORDER is part of the value"""
+    import numpy as np
+
+    if isinstance(v, (bool, str)) or v is None:
+        return v
+    if isinstance(v, (int, float, np.integer, np.floating)):
+        return {"f": float(v).hex()}
+    if isinstance(v, (list, tuple, np.ndarray)):
+        return [canon_prop(x) for x in v]
+    if isinstance(v, dict):
+        return {str(k): canon_prop(x) for k, x in sorted(v.items())}
+    if hasattr(v, "to_dict"):
+        return canon_prop(v.to_dict())
+    return canon(v)
+
+
 def build_detector(d):
     import numpy as np
     import pyx
@@ -191,11 +223,18 @@ def build_detector(d):
         ch["adc_voltage_range"] = tuple(ch["adc_voltage_range"])
     det = pyx.make_detector(d["type"], d["rows"], d["cols"], geometry=d["geometry"], environment=env, characteristics=ch)
     applied = []
-    for part, name, value in d.get("setters", []):
+    for part, name, value, *via in d.get("setters", []):
         try:
-            if isinstance(value, dict):  # {"rel": property, "plus": x}: relative to the detector's current state
+            if isinstance(value, dict) and "rel" in value:  # relative to the detector's current state
                 value = getattr(getattr(det, part), value["rel"]) + value["plus"]
-            setattr(getattr(det, part), name, value)
+            else:
+                value = decode_value(value)
+            if via and via[0] == "processor":  # the way a sweep / override sets it
+                from pyxel.pipelines import DetectionPipeline, Processor
+
+                Processor(detector=det, pipeline=DetectionPipeline()).set(f"detector.{part}.{name}", value)
+            else:
+                setattr(getattr(det, part), name, value)
             applied.append([part, name])
         except Exception:  # noqa: BLE001  (a value the setter refuses is simply not applied)
             pass
@@ -714,7 +753,26 @@ def gen_detector(rng, kind=None):
                        ("characteristics", "full_well_capacity", rng.choice([5000, 20000]))]
     setter_pool += [("environment", "temperature", rng.choice([99.0, 222.0])), ("geometry", "pixel_vert_size", rng.choice([11.0, 20.0])),
                     ("geometry", "total_thickness", rng.choice([15.0, 50.0]))]
-    setters = [list(s) for s in rng.sample(setter_pool, rng.choice([0, 0, 1, 2, 3]))]
+    # every legal representation of a value: ints for floats, numpy scalars, pairs as tuple / list, high-to-low pairs
+    reps = [("environment", "wavelength", rng.choice([600, 1234, {"np": "float64", "v": 650.5}, {"np": "int64", "v": 700}, 812.25])),
+            ("environment", "temperature", rng.choice([150, {"np": "float32", "v": 100.5}, {"np": "int32", "v": 80}])),
+            ("geometry", "pixel_vert_size", rng.choice([12, {"np": "float64", "v": 13.5}])),
+            ("geometry", "pixel_scale", rng.choice([1, {"np": "float32", "v": 0.5}])),
+            ("characteristics", "quantum_efficiency", rng.choice([1, 0, {"np": "float64", "v": 0.5}])),
+            ("characteristics", "adc_bit_resolution", rng.choice([{"np": "int64", "v": 12}, {"np": "uint8", "v": 10}])),
+            ("characteristics", "full_well_capacity", rng.choice([{"np": "int32", "v": 5000}, 7000.0])),
+            ("characteristics", "adc_voltage_range", rng.choice([{"tuple": [6.0, 1.0]}, [6, 1], [10.0, 0.0], {"tuple": [0, 5]},
+                                                                   {"tuple": [{"np": "float64", "v": 0.0}, {"np": "float64", "v": 5.0}]},
+                                                                   [-1.5, -3.0], {"tuple": [2.5, 2.5]}]))]
+    if kind != "APD":
+        reps.append(("characteristics", "pre_amplification", rng.choice([7, {"np": "float32", "v": 2.5}])))
+    else:
+        reps.append(("characteristics", "avalanche_gain", rng.choice([2, {"np": "float64", "v": 5.0}])))
+    setters = [list(s) for s in rng.sample(setter_pool, rng.choice([0, 0, 1, 2]))]
+    for rep in rng.sample(reps, rng.choice([0, 1, 2, 3])):
+        setters.append(list(rep) + (["processor"] if rng.random() < 0.3 else []))
+    if ch.get("adc_voltage_range") is not None and rng.random() < 0.3:
+        ch["adc_voltage_range"] = rng.choice([[6.0, 1.0], [10.0, 0.0], [0.0, -5.0]])  # a high-to-low range is legal
     c: dict = {}
     p = 0.5
     if rng.random() < p:
@@ -911,6 +969,11 @@ def body(ck: common.Check):
                 for x in (d["containers"].get("photon") or {}).get("extra", []):
                     ck.count(f"{s}:photon-3d-extra={x}")
                 ck.count(f"{s}:setters-applied", len(impl.get("applied", [])))
+                for st in d.get("setters", []):
+                    if len(st) > 2 and (isinstance(st[2], (dict, list, int)) and not isinstance(st[2], bool) and not (isinstance(st[2], dict) and "rel" in st[2])):
+                        ck.count(f"{s}:representation:{st[1]}:" + ("numpy" if isinstance(st[2], dict) and "np" in st[2] else
+                                                                   "tuple" if isinstance(st[2], dict) else "list" if isinstance(st[2], list) else "int")
+                                 + (":via-Processor.set" if len(st) > 3 else ""))
                 if "after" in impl:
                     a = impl["after"]
                     mine = {"ok": {"ty": a["type"], "shape": a["shape"], "props": {k: token(v) for k, v in a["props"].items()},
